@@ -30,6 +30,14 @@ unsigned vp_wx;            /* extra scalar (lengths, slack) */
  * disagree on `field >= MAX` for identifiers >= 2^31.  Listed as an assumption. */
 #define VP_ENUM_ID_OK(field) ((unsigned)(field) <= 0x7fffffffu)
 
+/* Witness bindings in hand-written contracts are active only when the contract is the
+ * one being enforced (-DVP_BINDINGS); in replace mode a requires clause is an assertion. */
+#ifdef VP_BINDINGS
+#define VP_WBIND(c) (c)
+#else
+#define VP_WBIND(c) 1
+#endif
+
 #define VP_CANARY() __CPROVER_assert(0, "canary: harness end must be reachable")
 
 #endif
